@@ -609,21 +609,31 @@ Proof. unfold hvalues, strip_conditionals. rewrite get_fold_del. reflexivity. Qe
 Lemma removed_strip k h : removed_by_hop k (strip_conditionals h) = removed_by_hop k h.
 Proof. unfold removed_by_hop, connection_tokens. rewrite strip_keeps_connection. reflexivity. Qed.
 
+Lemma removed_after_cache k r : removed_by_hop k (after_cache_layer r) = removed_by_hop k (c_hdrs r).
+Proof. unfold after_cache_layer. destruct (cache_answers (c_method r)); [apply removed_strip|reflexivity]. Qed.
+
 Theorem request_headers_faithful r u n :
-  relay_request r = Some u -> end_to_end n (c_hdrs r) -> ~ is_conditional n ->
+  relay_request r = Some u -> end_to_end n (c_hdrs r) -> (cache_answers (c_method r) = true -> ~ is_conditional n) ->
   hvalues n (q_hdrs u) = hvalues n (c_hdrs r).
 Proof.
   unfold relay_request. destruct (forwarded_target _ _); [|discriminate]. intros H E NC. inversion H; subst u; clear H.
-  cbn [q_hdrs]. unfold hvalues. rewrite get_rhbh, removed_strip. unfold end_to_end in E. rewrite E.
+  cbn [q_hdrs]. unfold hvalues. rewrite get_rhbh, removed_after_cache. unfold end_to_end in E. rewrite E.
+  unfold after_cache_layer. destruct (cache_answers (c_method r)); [|reflexivity].
   unfold strip_conditionals. rewrite get_fold_del.
-  unfold is_conditional in NC. destruct (existsb _ conditional_names); [congruence|reflexivity].
+  specialize (NC eq_refl). unfold is_conditional in NC. destruct (existsb _ conditional_names); [congruence|reflexivity].
 Qed.
+
+(* a write's preconditions reach the origin *)
+Theorem write_headers_faithful r u n :
+  relay_request r = Some u -> cache_answers (c_method r) = false -> end_to_end n (c_hdrs r) ->
+  hvalues n (q_hdrs u) = hvalues n (c_hdrs r).
+Proof. intros H W E. apply (request_headers_faithful r u n H E). intros C. congruence. Qed.
 
 Theorem request_drops_hop r u n :
   relay_request r = Some u -> removed_by_hop (canon_key n) (c_hdrs r) = true -> hvalues n (q_hdrs u) = [].
 Proof.
   unfold relay_request. destruct (forwarded_target _ _); [|discriminate]. intros H R. inversion H; subst u; clear H.
-  cbn [q_hdrs]. unfold hvalues. rewrite get_rhbh, removed_strip, R. reflexivity.
+  cbn [q_hdrs]. unfold hvalues. rewrite get_rhbh, removed_after_cache, R. reflexivity.
 Qed.
 
 Theorem request_faithful r :
